@@ -316,6 +316,12 @@ def guard_chain(fn, site, parents, lets):
     return chain
 
 
+def site_formula(fn, node, parents):
+    """the condition under which `node` is reached inside `fn`, as a guardf formula (aliases resolved, names `$`)"""
+    lets = _lets(fn)
+    return GF.alpha_formula(GF.guard_formula(fn, node, parents, {n_: _r(e_) for n_, e_ in lets.items()}, lets))
+
+
 def collect(ctx):
     out = []
     for rel, f in sorted(ctx.files.items()):
